@@ -284,7 +284,7 @@ func GovProfile(seed int64, out *Recorder, nOps int) *Chain {
 				id = certs[rng.Intn(len(certs))].CertificateId
 			}
 			// the certificate issued last (the highest id): after it is revoked the id counter is ahead of every stored certificate
-			if len(certs) > 0 && newRng(seed*137+int64(i)*11+5).Intn(3) == 0 {
+			if len(certs) > 0 && newRng(seed*137+int64(i)*11+5).Intn(3) > 0 {
 				id = 0
 				for _, ct := range certs {
 					if ct.CertificateId > id {
